@@ -212,10 +212,13 @@ func (ic *Credential) nonrevConsumeBuilder() (*NonRevocationProofBuilder, error)
 	// Using either the channel value or a new one ensures that our output is used at most once,
 	// lest we totally break security: reusing randomizers in a second session makes it possible
 	// for the verifier to compute our revocation witness e from the proofs
+	verifHook("consume.recv.before", ic)
 	select {
 	case b := <-ic.nonrevCacheChan(false):
+		verifHook("consume.recv.cached", ic, b)
 		return b, b.UpdateCommit(ic.NonRevocationWitness)
 	default:
+		verifHook("consume.recv.empty", ic)
 		return ic.NonrevBuildProofBuilder()
 	}
 }
@@ -230,23 +233,29 @@ func (ic *Credential) NonrevPrepareCache() error {
 	cache := ic.nonrevCacheChan(true)
 	var b *NonRevocationProofBuilder
 	var err error
+	verifHook("prepare.recv.before", ic)
 	select {
 	case b = <-cache:
+		verifHook("prepare.recv.cached", ic, b)
 		Logger.Trace("updating existing nonrevocation commitment")
 		err = b.UpdateCommit(ic.NonRevocationWitness)
 	default:
+		verifHook("prepare.recv.empty", ic)
 		Logger.Trace("instantiating new nonrevocation commitment")
 		b, err = ic.NonrevBuildProofBuilder()
 	}
 	if err != nil {
 		return err
 	}
+	verifHook("prepare.send.before", ic, b)
 
 	// put it back in the channel, waiting to be consumed by nonrevConsumeBuilder()
 	// if the channel has already been populated by another goroutine in the meantime we just discard
 	select {
 	case cache <- b:
+		verifHook("prepare.send.stored", ic, b)
 	default:
+		verifHook("prepare.send.discarded", ic, b)
 	}
 
 	return err
